@@ -57,6 +57,16 @@ def run(ctx):
                 ctx.verdict(ok, "R12.1", f, "into_parts-hands-out-the-view", f.loc(), "the vector returned by into_parts depends on self.%s" % param,
                             "`%s` returns `%s`, which does not depend on the adapter's %s: the next stage starts from the adapter's internal copy of the source, not from its current view (e.g. dynamic_%s(..).filter(..) starts with every item although the view is empty until a %s arrives)" % (
                                 f.path, fmt(e[5][0] if e[0] == "agg" else e, 4), param, m.group(1), param))
+            # R12.3 the view is handed over in source order: a vector collected from an iterator chain with an odd number of
+            # rev() is the view back to front (the next stage then never converges)
+            for loc, kind, payload in blocks_assigning_ret(b):
+                if kind == "assign" and payload["k"] == "agg" and payload["of"] == "tuple":
+                    ve = b.expr_of_op(payload["ops"][0])
+                    cols = find_all(ve, lambda y: y[0] == "call" and ecall_matches(y, r"Iterator>?::collect$|FromIterator<.*>>?::from_iter$"))
+                    if cols:
+                        revs = find_all(cols[0], lambda y: y[0] == "call" and ecall_matches(y, r"Iterator>?::rev$"))
+                        ctx.verdict(len(revs) % 2 == 0, "R12.3", f, "view-in-source-order", f.loc(), "the collected view is in source order (%d rev())" % len(revs),
+                                    "`%s` collects the view it hands to the next adapter from an iterator chain with %d `rev()`: the items arrive back to front, so the next stage starts from a reversed view" % (f.path, len(revs)))
             if m.group(1) == "skip":
                 # while no count has arrived the skip view is empty: None must not be collapsed into a number
                 collapses = [(blk, t) for blk, t in b.calls(r"Option::<usize>::(unwrap_or|unwrap_or_default|unwrap_or_else|map_or|map_or_else)$") if contains(b.expr_of_op(t["args"][0]), lambda x: x[0] == "field" and x[2] == "count") and b.locals[t["dest"]["l"]]["ty"] == "usize"]
